@@ -1,9 +1,18 @@
+"""C04 -- duplicate requests are executed at most once and re-answered identically.
+
+Phase 1 (checks/msgserver.py): MsgServer.tla exhaustively, behaviours replayed, traces validated.
+Phase 2 (checks/e2e.py): the same promise end to end -- a real aiocoap client retransmitting through a
+lossy / duplicating network to a real aiocoap server: the handler runs at most once however many copies
+arrive, and copies are bounded (spec/EndToEnd.tla, clauses of EndToEndObs on recorded traces)."""
 import sys
 from harness import runner
-from checks import msgserver
+from checks import msgserver, e2e
+
 
 def work(rep, args):
     msgserver.check(rep, args, "C04_", "c04")
+    e2e.run_phase(rep, args, {"E2E_AtMostOnceExecution", "E2E_CallWithoutRequest", "E2E_CopiesBounded"})
+
 
 if __name__ == "__main__":
     sys.exit(runner.main("C04", work))
